@@ -12,7 +12,7 @@ import time
 import z3
 
 Z3_TIMEOUT_MS = int(os.environ.get("PYVC_Z3_MS", "6000"))
-CVC5_TIMEOUT_S = int(os.environ.get("PYVC_CVC5_S", "20"))
+CVC5_TIMEOUT_S = int(os.environ.get("PYVC_CVC5_S", "75"))
 Z3OLD_TIMEOUT_S = int(os.environ.get("PYVC_Z3OLD_S", "0"))
 SEED = 0
 
@@ -71,6 +71,11 @@ def solve_precise(assumptions, goal, want_model=True, z3_ms=None, use_cvc5=True)
     if r == z3.sat:
         return {"status": "refuted", "backend": "z3-" + z3.get_version_string(), "seconds": dt, "model": s.model()}
     reason = s.reason_unknown()
+    from .core import _has_quantifier
+
+    if use_cvc5 and (any(_has_quantifier(a) for a in assumptions) or _has_quantifier(goal)):
+        # cvc5 1.0 cannot read z3's lambda / quantified array terms and rarely decides these
+        use_cvc5 = False
     if not use_cvc5:
         return {"status": "unknown", "backend": "z3", "seconds": dt, "reason": reason}
     text = _smt2(assumptions, goal)
